@@ -361,12 +361,12 @@ BOUNDED = ["Parser.from_grammar end to end (grammar Parser's recursive descent, 
 
 def specs(tier):
     return [*[ScannerMethod(m) for m in SCANNER_METHODS], ErrorContext(), *[CursorSpec(m) for m in ("current", "next", "peek", "eat")],
-            c12.DecodeEscape(), c12.DecodeHexChar(), c12.UnescapeString()]
+            c12.ParseHexDigits(), c12.DecodeEscape(), c12.DecodeHexChar(), c12.UnescapeString()]
 
 
 # ------------------------------------------------------------------ corpus stand-in
 ALPHABET = ['a', 'b', '_', 'A', '=', '{', '}', '(', ')', '[', ']', '~', '|', '*', '+', '?', '!', '&', '@', '$', '^', '"', "'", '\\', '.', '..', ',', '-', '0', '1', '12',
-            ' ', '\n', '/', '//', '///', '//!', '/*', '*/', '#', '#tt', 'PUSH', 'PEEK', 'POP', 'DROP', 'PEEK_ALL', 'POP_ALL', 'PUSH_LITERAL', 'ANY', 'SOI', 'EOI', 'x', 'n', 'u', '\u00e9', '\u00df', '\U0001F600', '\t', '\r']
+            ' ', '\n', '/', '//', '///', '//!', '/*', '*/', '#', '#tt', '"\\u{-1}"', '"\\x-1"', '"\\u{+41}"', '"\\x4"', "'\\u{-1}'", '\\u{', '\\x', '{-1}', 'PUSH', 'PEEK', 'POP', 'DROP', 'PEEK_ALL', 'POP_ALL', 'PUSH_LITERAL', 'ANY', 'SOI', 'EOI', 'x', 'n', 'u', '\u00e9', '\u00df', '\U0001F600', '\t', '\r']
 
 
 def _valid_grammars() -> list[str]:
